@@ -231,8 +231,13 @@ def worker(case, led):
         for algo in ALGOS:
             key = (mname, seed, trial, algo)
             fields = {"algo": algo}
+            # the offset is an energy with a unit: the operator is shifted by its value in atomic units, whatever unit it was given in
+            unit = ["a.u.", "eV", "cm^{-1}", "meV"][(trial + len(algo)) % 4] if offset else "a.u."
+            per_unit = Quantity(1.0, unit).as_au()
+            off_q = Quantity(offset / per_unit, unit)
+            fields["offset_unit"] = unit
             try:
-                mpo = Mpo(model, terms, offset=Quantity(offset), algo=algo)
+                mpo = Mpo(model, terms, offset=off_q, algo=algo)
             except Exception as e:
                 led.check(False, "post:Mpo.__init__:total", "Mpo.__init__", f"raised {type(e).__name__}: {e}", key, fields, dict(rep, algo=algo))
                 continue
@@ -243,6 +248,9 @@ def worker(case, led):
             tol_dense = (1e-9 if algo == "qr" else 1e-12) * scale
             led.check(err <= tol_dense, "post:Mpo.__init__:dense_equals_sum_of_products_minus_offset", "Mpo.__init__",
                       f"max |dense(MPO) - sum_k c_k (x) local matrices + offset| = {err:.3e} (scale {scale:.2e})", key + ("dense",), fields, dict(rep, algo=algo))
+            led.check(abs(complex(mpo.offset) - offset) <= 1e-12 * max(1.0, abs(offset)), "post:Mpo.__init__:offset_recorded_in_atomic_units", "Mpo.__init__",
+                      f"mpo.offset = {mpo.offset!r} for an offset of {off_q.value!r} {unit} = {offset!r} a.u.", key + ("offset",), fields, dict(rep, algo=algo, offset_unit=unit),
+                      nontrivial=bool(offset) and unit != "a.u.")
             v = S.qnv_violations(mpo)
             led.check(not v and np.all(np.asarray(mpo.qntot).reshape(-1) == np.asarray(charge)), "post:Mpo.__init__:qn_valid_and_charge", "Mpo.__init__",
                       f"qntot={mpo.qntot} expected {charge}; {v[:1]}", key + ("qnv",), fields, dict(rep, algo=algo))
